@@ -148,6 +148,14 @@ TEMPLATES_MODULE_ONLY = [
     "cur = [0]\ndef nxt():\n    global cur\n    cur = [9]\n    return 0\nl[nxt()] = cur\nL('v', l[0], cur)",
     "cur = 1\ndef nxt():\n    global cur\n    cur = 2\n    return 'k'\nb[nxt()] += cur\nL('v', b['k'], cur)",
 ]
+TEMPLATES_MODULE_ONLY += [
+    # the value expression REBINDS the target name: Python reads the old value of the name first
+    "cur = 1\ndef nxt():\n    global cur\n    cur += 1000\n    return 5\ncur += nxt()\nL('v', cur)",
+    "cur = [1]\ndef nxt():\n    global cur\n    cur = [9]\n    return [5]\ncur += nxt()\nL('v', cur)",
+    "cur = 2\ndef nxt():\n    global cur\n    cur = 100\n    return 3\ncur *= nxt()\ncur -= nxt()\ncur **= P(1, 2)\nL('v', cur)",
+    "def FF2():\n    cur = 1\n    def nxt():\n        nonlocal cur\n        cur += 1000\n        return 5\n    cur += nxt()\n    cur -= (cur := 7)\n    return cur\nL('v', FF2())",
+    "class KK2:\n    cur = 1\n    def nxt(d=[]):\n        d.append(1)\n        return len(d)\n    cur += nxt()\n    cur += (cur := 50)\nL('v', KK2.cur)",
+]
 TEMPLATES_IN_FUNC_ONLY = [
     "return P(1, 1)",
     "if P(1, 1):\n    return P(2, 2)\nP(3)",
